@@ -346,7 +346,7 @@ func (g *gen) behC06() M {
 		switch g.rng.Intn(14) {
 		case 0, 1, 2:
 			q := g.script(2, 3)
-			if run.S(q, "parse") == "blank" {
+			if run.S(q, "parse") == "blank" && g.chance(0.5) {
 				q = M{"id": q["id"], "parse": "ok", "stmts": []any{}}
 			}
 			if sts := run.L(q, "stmts"); len(sts) == 1 && g.chance(0.1) {
